@@ -26,4 +26,17 @@ ExactIffAll(e) == IF e.imm.out = "ok"
                   THEN IF e.imm.n = e.len THEN e.exact.out = "ok" /\ e.exact.same
                        ELSE e.exact.out = "TooMuchData"
                   ELSE e.exact.out # "ok"        \* which error is C02's business, not C03's
+
+\* C01 - compose then parse: an object that has a wire form parses back to itself, consuming every byte.
+\* e = [compose, wire_len, parse, n, p, back]   (p / back: projection digests of the object before / after)
+HasWireForm(e) == e.compose = "ok"
+NoWireForm(e)  == e.compose \in Documented            \* e.g. a value that does not fit its field: trivial case
+RoundTrip(e)   == HasWireForm(e) => e.parse = "ok" /\ e.n = e.wire_len /\ e.back = e.p
+
+\* C05 - re-serialising an accepted input is a stable canonical form, reached in one step.
+\* e = [c1, parse2, n2, len2, same12, c2, stable]
+Canonical(e) == /\ e.c1 = "ok"                          \* composing what was parsed succeeds
+                /\ e.parse2 = "ok" /\ e.n2 = e.len2      \* the composed bytes are accepted again, completely
+                /\ e.same12                              \* ... and mean the same
+                /\ e.c2 = "ok" /\ e.stable               \* ... and composing again yields the very same bytes
 =============================================================================
